@@ -22,6 +22,9 @@ pub enum Dev {
     ChunkEmpty,
     ChunkShort,
     ChunkLong,
+    /// a two-byte slice that lives in a *separate* exactly-sized allocation (same values as the next two bytes): reading past
+    /// it - e.g. because an earlier chunk() call was longer - runs into that block's red zone
+    ChunkElsewhere,
     ChunkPanic,
     AdvIgnore,
     AdvPartial,
@@ -40,6 +43,7 @@ const TAIL: usize = 8; // bytes the liar really owns beyond what it admits
 
 pub struct Liar {
     data: Vec<u8>,
+    alt: Vec<u8>,
     pos: usize,
     n_rem: std::cell::Cell<u32>,
     n_chunk: std::cell::Cell<u32>,
@@ -67,7 +71,10 @@ impl Liar {
         for i in 0..TAIL {
             data.push(0x70 + i as u8);
         }
-        Liar { data, pos: 0, n_rem: std::cell::Cell::new(0), n_chunk: std::cell::Cell::new(0), n_adv: 0, script: oracle::harness(|| script.clone()), fuel: std::cell::Cell::new(96) }
+        let mut alt = Vec::with_capacity(2);
+        alt.push(0x10);
+        alt.push(0x11);
+        Liar { data, alt, pos: 0, n_rem: std::cell::Cell::new(0), n_chunk: std::cell::Cell::new(0), n_adv: 0, script: oracle::harness(|| script.clone()), fuel: std::cell::Cell::new(96) }
     }
     fn dev(&self, m: Meth, n: u32) -> Option<Dev> {
         self.script.iter().find(|(mm, nn, _)| *mm == m && *nn == n).map(|x| x.2)
@@ -112,6 +119,10 @@ impl Buf for Liar {
             Some(Dev::ChunkLong) => {
                 expose(p, N + TAIL);
                 &self.data[p..]
+            }
+            Some(Dev::ChunkElsewhere) => {
+                expose(0, 2);
+                &self.alt[..]
             }
             Some(Dev::ChunkPanic) => panic!("liar: chunk panics"),
             _ => {
@@ -509,7 +520,7 @@ fn rem_devs() -> Vec<Dev> {
     vec![Dev::RemPlus(1), Dev::RemPlus(7), Dev::RemMinus(1), Dev::RemMinus(7), Dev::RemZero, Dev::RemHuge, Dev::RemMax, Dev::RemPanic]
 }
 fn chunk_devs() -> Vec<Dev> {
-    vec![Dev::ChunkEmpty, Dev::ChunkShort, Dev::ChunkLong, Dev::ChunkPanic]
+    vec![Dev::ChunkEmpty, Dev::ChunkShort, Dev::ChunkLong, Dev::ChunkElsewhere, Dev::ChunkPanic]
 }
 fn adv_devs() -> Vec<Dev> {
     vec![Dev::AdvIgnore, Dev::AdvPartial, Dev::AdvPanic]
